@@ -664,6 +664,9 @@ def check_dir(case):
         for sub, on in (("ali", has_ali), ("ref", has_ref)):
             d = os.path.join(out, sub)
             have = sorted(os.listdir(d)) if os.path.isdir(d) else []
+            if on and sub == "ref" and not case.get("ref_segments", True) and not have:
+                has_ref = False  # tokens without segments: nothing to restrict, writing no token files is as good as writing empty ones
+                continue
             if on and have != fnames:
                 return "names: %s/ holds %s, feat/ holds %s" % (sub, have, fnames)
             if not on and have:
